@@ -279,12 +279,28 @@ def parse_guard(raw: Any) -> Optional[GuardIR]:
 
     params = raw.get("params")
     children: List[GuardIR] = []
-    if isinstance(params, dict):
-        # 🔍 Composite guards nest their operands under params.guards.
-        for nested in _as_list(params.get("guards")):
-            parsed = parse_guard(nested)
-            if parsed is not None:
-                children.append(parsed)
+    # 🔍 Composite guards carry their operands under `children`, under
+    #    `params.guards` / `params.children`, or (for a single operand) under
+    #    `params.guard` - the same spellings, in the same order of precedence,
+    #    that `GuardDefinition` accepts. Reading only `params.guards` lost the
+    #    operands of every other spelling: the generated machine had a
+    #    composite guard with nothing inside and the leaf guards got no stub.
+    nested_raw: List[Any] = _as_list(raw.get("children") or None)
+    if not nested_raw and isinstance(params, dict):
+        nested_raw = _as_list(
+            params.get("guards") or params.get("children") or None
+        )
+    if (
+        not nested_raw
+        and guard_type in _COMPOSITE_OPERATORS
+        and isinstance(params, dict)
+        and params.get("guard") is not None
+    ):
+        nested_raw = [params["guard"]]
+    for nested in nested_raw:
+        parsed = parse_guard(nested)
+        if parsed is not None:
+            children.append(parsed)
 
     return GuardIR(
         type=guard_type,
